@@ -38,16 +38,17 @@ theorem numDigits_le_iff (k : Nat) : ∀ n, numDigits n ≤ k + 1 ↔ n < 10 ^ (
       omega
 
 /-- What the bands must satisfy for every digit count up to 19: a divisor exists, is positive,
-and brings every number of that many digits into `i64`. -/
+brings every number of that many digits into `i64`, and the "already seconds" arm has divisor 1. -/
 def bandOk (k : Nat) : Bool :=
   match bandDivisor k epochBands with
-  | some d => decide (1 ≤ d) && decide (10 ^ k ≤ (i64Max + 1) * d)
+  | some (d, m) => decide (1 ≤ d) && decide (10 ^ k ≤ (i64Max + 1) * d) && (m != .ident || d == 1)
   | none => false
 
 theorem bands_upto_19 : ((List.range 20).drop 1).all bandOk = true := by decide
 
 theorem band_some {k : Nat} (h1 : 1 ≤ k) (h2 : k ≤ 19) :
-    ∃ d, bandDivisor k epochBands = some d ∧ 1 ≤ d ∧ 10 ^ k ≤ (i64Max + 1) * d := by
+    ∃ d m, bandDivisor k epochBands = some (d, m) ∧ 1 ≤ d ∧ 10 ^ k ≤ (i64Max + 1) * d ∧
+      (m = .ident → d = 1) := by
   have hmem : k ∈ (List.range 20).drop 1 := by
     have : k ∈ List.range 20 := List.mem_range.mpr (by omega)
     rw [show List.range 20 = 0 :: (List.range 20).drop 1 by decide] at this
@@ -57,9 +58,13 @@ theorem band_some {k : Nat} (h1 : 1 ≤ k) (h2 : k ≤ 19) :
   have := (List.all_eq_true.mp bands_upto_19) k hmem
   unfold bandOk at this
   split at this
-  · rename_i d hd
-    simp at this
-    exact ⟨d, hd, this.1, this.2⟩
+  · rename_i d m hd
+    simp only [Bool.and_eq_true, decide_eq_true_eq, Bool.or_eq_true, bne_iff_ne, beq_iff_eq] at this
+    refine ⟨d, m, hd, this.1.1, this.1.2, ?_⟩
+    intro hm
+    rcases this.2 with h | h
+    · exact absurd hm h
+    · exact h
   · simp at this
 
 theorem band_none {k : Nat} (h : 20 ≤ k) : bandDivisor k epochBands = none := by
@@ -77,11 +82,32 @@ theorem normInt_none_of_big {z : Int} (h : 10 ^ 19 ≤ z.natAbs) : normalizeInte
   unfold normalizeIntegerEpoch
   rw [band_none (numDigits_ge_20 h)]
 
+/-- On a non-negative value all three spellings give the natural-number quotient. -/
+theorem applyDiv_nonneg (mode : Snel.Gen.C06.DivMode) (n d : Nat) (hid : mode = .ident → d = 1) :
+    applyDiv mode (n : Int) d = ((n / d : Nat) : Int) := by
+  cases mode with
+  | ident => rw [hid rfl, Nat.div_one]; rfl
+  | trunc => rfl
+  | floor => rfl
+
+/-- On a negative value each spelling gives minus a natural number no larger than the
+magnitude (truncation: `-(|n| / d)`; `div_euclid`: `-((|n| - 1) / d + 1)`). -/
+theorem applyDiv_neg (mode : Snel.Gen.C06.DivMode) (m d : Nat) (hd : 1 ≤ d) :
+    ∃ q : Nat, applyDiv mode (Int.negSucc m) d = -(q : Int) ∧ q ≤ m + 1 := by
+  cases mode with
+  | ident => exact ⟨m + 1, rfl, Nat.le_refl _⟩
+  | trunc => exact ⟨(m + 1) / d, rfl, Nat.div_le_self _ _⟩
+  | floor =>
+    obtain ⟨k, rfl⟩ : ∃ k, d = k + 1 := ⟨d - 1, by omega⟩
+    refine ⟨m / (k + 1) + 1, rfl, ?_⟩
+    have := Nat.div_le_self m (k + 1)
+    omega
+
 theorem normInt_some_of_nonneg {z : Int} (h0 : 0 ≤ z) (h1 : z < 10 ^ 19) :
     ∃ s, normalizeIntegerEpoch z = some s ∧ 0 ≤ s ∧ s ≤ (i64Max : Int) := by
   obtain ⟨n, rfl⟩ := Int.eq_ofNat_of_zero_le h0
   have hn : n < 10 ^ 19 := by omega
-  obtain ⟨d, hd, hd1, hd2⟩ := band_some (numDigits_pos n) (numDigits_le_19 hn)
+  obtain ⟨d, mode, hd, hd1, hd2, hid⟩ := band_some (numDigits_pos n) (numDigits_le_19 hn)
   have hk : n < 10 ^ numDigits n := by
     have := numDigits_le_iff (numDigits n - 1) n
     have hp := numDigits_pos n
@@ -94,9 +120,10 @@ theorem normInt_some_of_nonneg {z : Int} (h0 : 0 ≤ z) (h1 : z < 10 ^ 19) :
       (if inI64 ((n / d : Nat) : Int) = true then some ((n / d : Nat) : Int) else none) := by
     show (match bandDivisor (numDigits (n : Int).natAbs) epochBands with
       | none => none
-      | some d => if inI64 (Int.tdiv (n : Int) (d : Nat)) = true then some (Int.tdiv (n : Int) (d : Nat)) else none) = _
+      | some (d, mode) => if inI64 (applyDiv mode (n : Int) d) = true then some (applyDiv mode (n : Int) d) else none) = _
     rw [Int.natAbs_natCast, hd]
-    rfl
+    show (if inI64 (applyDiv mode (n : Int) d) = true then some (applyDiv mode (n : Int) d) else none) = _
+    rw [applyDiv_nonneg mode n d hid]
   generalize n / d = q at hq hred
   unfold i64Max at hq
   have hin : inI64 (q : Int) = true := by
@@ -115,16 +142,16 @@ theorem normInt_some_of_neg {z : Int} (h0 : i64Min ≤ z) (h1 : z < 0) :
   unfold i64Min at h0
   have hm : m + 1 ≤ 9223372036854775808 := by omega
   have hn : m + 1 < 10 ^ 19 := by omega
-  obtain ⟨d, hd, hd1, _⟩ := band_some (numDigits_pos (m + 1)) (numDigits_le_19 hn)
-  have hq : (m + 1) / d ≤ m + 1 := Nat.div_le_self _ _
+  obtain ⟨d, mode, hd, hd1, _, _⟩ := band_some (numDigits_pos (m + 1)) (numDigits_le_19 hn)
+  obtain ⟨q, hq, hqle⟩ := applyDiv_neg mode m d hd1
   have hred : normalizeIntegerEpoch (Int.negSucc m) =
-      (if inI64 (-(((m + 1) / d : Nat) : Int)) = true then some (-(((m + 1) / d : Nat) : Int)) else none) := by
+      (if inI64 (-(q : Int)) = true then some (-(q : Int)) else none) := by
     show (match bandDivisor (numDigits (m + 1)) epochBands with
       | none => none
-      | some d => if inI64 (Int.tdiv (Int.negSucc m) (d : Nat)) = true then some (Int.tdiv (Int.negSucc m) (d : Nat)) else none) = _
+      | some (d, mode) => if inI64 (applyDiv mode (Int.negSucc m) d) = true then some (applyDiv mode (Int.negSucc m) d) else none) = _
     rw [hd]
-    rfl
-  generalize (m + 1) / d = q at hq hred
+    show (if inI64 (applyDiv mode (Int.negSucc m) d) = true then some (applyDiv mode (Int.negSucc m) d) else none) = _
+    rw [hq]
   have hin : inI64 (-(q : Int)) = true := by
     unfold inI64 i64Min i64Max
     simp
